@@ -86,13 +86,27 @@ def callsComplete (parents : List (Nat × Option Nat)) (calls : List Nat) : Verd
 /-! ### sequential helpers: what the plan defines -/
 namespace Seq
 
-/-- maximal acyclic paths below `seg` in the order the stack DFS visits them (last branch first) -/
-def pathsSpec (adj : Nat → List (Nat × Nat)) : Nat → Seg → List Seg
+/-- the segments TraversePaths descends into below `seg`: the fetched branches that pass the caller's
+descent filter and do not close a cycle, in fetch order -/
+def pathKids (p : Plan) (seg : Seg) : List Seg :=
+  ((p.adj seg.node).map (fun e => seg.descend e.1 e.2)).filter
+    (fun c => optAccept p.descentFilter c && !c.isCycle)
+
+/-- What TraversePaths is to return before skip/limit, defined by recursion on the path tree (no
+stack): the maximal acyclic filtered paths below `seg` — a segment with no admissible continuation is
+a result if it is a proper path (depth > 0) that the PathFilter accepts — listed with the LAST
+fetched branch first (the order a LIFO stack visits them). `d` bounds the recursion depth. -/
+def pathsSpec (p : Plan) : Nat → Seg → List Seg
   | 0, _ => []
-  | fuel + 1, seg =>
-    let kids := ((adj seg.node).map (fun p => seg.descend p.1 p.2)).filter (fun c => !c.isCycle)
-    if kids.isEmpty then (if seg.depth > 0 then [seg] else [])
-    else kids.reverse.flatMap (pathsSpec adj fuel)
+  | d + 1, seg =>
+    if (pathKids p seg).isEmpty then
+      (if decide (seg.depth > 0) && optAccept p.pathFilter seg then [seg] else [])
+    else (pathKids p seg).reverse.flatMap (pathsSpec p d)
+
+/-- the recursion of `pathsSpec p d seg` never runs out of depth: the path tree below `seg` is lower than `d` -/
+def Fits (p : Plan) : Nat → Seg → Prop
+  | 0, _ => False
+  | d + 1, seg => ∀ k ∈ pathKids p seg, Fits p d k
 
 end Seq
 end Dawgs.C17
